@@ -262,40 +262,17 @@ func (v *Value) GetMember(member Value) (*Cell, error) {
 		if member.Tag != ValueNum && v.Proto != nil {
 			return v.Proto.GetMember(member)
 		}
-		index := int(*member.Num)
-		arr := v.Array
-
-		if index < 0 {
-			index = len(arr) + index
-			if index < 0 {
-				// walked backwards off the front of the array
-				return nil, fmt.Errorf("index out of range")
-			}
+		index, err := v.resolveIndex(member)
+		if err != nil {
+			return nil, err
 		}
 
-		if index >= len(arr) {
-			// TODO sparse arrays
-			// don't fill up to enormous numbers, just bail
-			if index > 1024*1024 {
-				return nil, fmt.Errorf("index too large to auto-fill array")
-			}
-
-			// fill the array with empty cells up to the index
-			var lastCell *Cell
-			for i := len(arr); i <= index; i++ {
-				lastCell = NewCell(NewValue(nil))
-				arr = append(arr, lastCell)
-			}
-			v.Array = arr
-
-			// make the last cell a spec object
-			lastCell.Value.ParentObj = v
-			fIndex := float64(index)
-			lastCell.Value.Num = &fIndex
-
-			return lastCell, nil
+		if index >= len(v.Array) {
+			// reading past the end yields nothing and leaves the array alone,
+			// SetMember fills the array when the index is assigned to
+			return nil, nil
 		}
-		return arr[index], nil
+		return v.Array[index], nil
 	case ValueObj:
 		if member.Tag != ValueNum && member.Tag != ValueStr {
 			return nil, fmt.Errorf("objects can only by indexed with numbers or strings, got %s", member.Tag)
@@ -326,6 +303,20 @@ func (v *Value) GetMember(member Value) (*Cell, error) {
 	}
 }
 
+// convert a numeric member into an index into v.Array, negative indices count
+// from the end
+func (v *Value) resolveIndex(member Value) (int, error) {
+	index := int(*member.Num)
+	if index < 0 {
+		index = len(v.Array) + index
+		if index < 0 {
+			// walked backwards off the front of the array
+			return 0, fmt.Errorf("index out of range")
+		}
+	}
+	return index, nil
+}
+
 func (v *Value) SetMember(member Value, cell *Cell) (*Cell, error) {
 	switch v.Tag {
 	case ValueArray:
@@ -333,10 +324,25 @@ func (v *Value) SetMember(member Value, cell *Cell) (*Cell, error) {
 			return nil, fmt.Errorf("array indices must be numbers")
 		}
 
-		item, err := v.GetMember(member)
+		index, err := v.resolveIndex(member)
 		if err != nil {
 			return nil, err
 		}
+
+		if index >= len(v.Array) {
+			// TODO sparse arrays
+			// don't fill up to enormous numbers, just bail
+			if index > 1024*1024 {
+				return nil, fmt.Errorf("index too large to auto-fill array")
+			}
+
+			// fill the array with empty cells up to the index
+			for i := len(v.Array); i <= index; i++ {
+				v.Array = append(v.Array, NewCell(NewValue(nil)))
+			}
+		}
+
+		item := v.Array[index]
 		item.Value = cell.Value
 		return item, nil
 	case ValueObj:
